@@ -86,7 +86,7 @@ CONFIG = {
     },
     "C04": {
         "level": "fault_enumeration",
-        "rule": "C04: fault enumeration over generated valid encodings: every strict prefix, hostile count/length patterns at every offset, single hostile annotated fields, every short primitive read, every unknown type code.",
+        "rule": "C04: fault enumeration over generated valid encodings: every strict prefix, hostile count/length patterns at every offset, single hostile annotated fields, every short primitive read, every unknown type code; pooled UDP decodes depend only on their input; every string a valid decode holds occurs in its input.",
         "groups": [G("c04", shards={"quick": 4, "thorough": 16}, timeout={"quick": 600, "thorough": 3000})],
         "fuzz": [{"pkg": "c04", "name": "FuzzDecoders", "seconds": 240}],
         "ulimit_v_kb": 8 * 1024 * 1024,
